@@ -308,9 +308,19 @@ def _worker(prop, part_name, tier, seed, shard, nshards, outdir, scratch):
         # signature instead of stopping at the first one
         collect = bool(os.environ.get('VERIF_COLLECT'))
 
+        last_dump = [time.monotonic()]
+
         def handle(desc):
             res = part.run_case(desc)
             stats.record(desc, res, enumerated)
+            if time.monotonic() - last_dump[0] > 5:
+                # partial results survive if the parent has to stop us
+                last_dump[0] = time.monotonic()
+                stats.wall = time.monotonic() - t0
+                try:
+                    _atomic_write(statfile, stats.to_json())
+                except Exception:
+                    pass
             if res.status == 'violation':
                 if res.sig is not None and (res.sig in known or collect):
                     stats.known[res.sig] += 1
@@ -464,8 +474,10 @@ def run_part(prop, part, tier, seed, scratch, grace):
             # the violation file holds the smallest failing case seen so far
             s['violation'] = v
         if s is None:
+            # stopped before its first progress report: inconclusive shard,
+            # not an alarm
             s = Stats().to_json()
-            s['error'] = f'shard {shard} produced no result (killed)'
+            s['budget_skipped'] = 1
         all_stats.append(s)
     m = merge(all_stats)
     m['killed_during_shrink'] = killed
@@ -603,7 +615,7 @@ def main(argv):
 
     results = {}
     try:
-        grace = 25 if tier == 'quick' else 150
+        grace = 40 if tier == 'quick' else 150
         for part in mod.PARTS:
             if args.part and part.name not in args.part:
                 continue
